@@ -152,3 +152,12 @@ Definition valid_range (nr nc : Z) (disp : Z -> Z -> option Q) (mask : Z -> Z ->
 (* the cross-check never leaves both bits on a pixel (C07_xcheck_never_both) *)
 Definition never_both (nr nc : Z) (mask : Z -> Z -> Z) : Prop :=
   forall r c, 0 <= r < nr -> 0 <= c < nc -> Z.testbit (mask r c) 8 && Z.testbit (mask r c) 9 = false.
+
+(* "no valid pixel in sight": every pixel of the map lying on one of the scan directions from
+   (r, c) is plainly invalid (neither valid nor itself an occlusion / mismatch waiting to be
+   filled) *)
+Definition dead (m : Z) : Prop := spec_valid m = false /\ flagged m = false.
+Definition nothing_in_sight (path : Z * Z -> Z -> Z -> Z -> Z * Z) (dirs : list (Z * Z))
+           (nr nc : Z) (mask : Z -> Z -> Z) (r c : Z) : Prop :=
+  forall d i, In d dirs -> 1 <= i -> inside nr nc (path d r c i) ->
+    dead (mask (fst (path d r c i)) (snd (path d r c i))).
